@@ -67,7 +67,7 @@ def _f10_class(f):
     if f.get("component") == "FuelVolDelta" and "jacobian" in f.get("kind", "") and tuple(f.get("size", ()))[-1:] == (True,):
         return True
     c = f.get("case", {})
-    if c.get("component") == "FuelVolDelta" and c.get("symmetry") is True:
+    if c.get("component") == "FuelVolDelta" and bool(c.get("symmetry")):
         return True
     return f.get("finding") == "F10"
 
